@@ -38,6 +38,7 @@ var (
 	flagNoReplay = flag.Bool("noreplay", false, "do not replay counterexamples natively")
 	flagSolver   = flag.String("solver", "z3-new", "solver binary")
 	flagMaxPaths = flag.Int("maxpaths", 0, "override max paths")
+	flagUnitSeconds = flag.Int("unit-seconds", 0, "wall-clock budget per unit (default 900 quick / 2400 thorough); exceeding it is reported as incomplete")
 	flagPrefix   = flag.String("prefix", "", "run a single path with this decision prefix (debug), e.g. 'B1 B0 V5'")
 	flagEvidence = flag.Bool("evidence", true, "write evidence file")
 )
@@ -252,6 +253,13 @@ func run() int {
 	if *flagMaxPaths > 0 {
 		opt.MaxPaths = *flagMaxPaths
 	}
+	unitSeconds := *flagUnitSeconds
+	if unitSeconds == 0 {
+		unitSeconds = 900
+		if tier == "thorough" {
+			unitSeconds = 2400
+		}
+	}
 	var unitRe *regexp.Regexp
 	if *flagUnit != "" {
 		unitRe = regexp.MustCompile(*flagUnit)
@@ -277,6 +285,7 @@ func run() int {
 			debugSinglePath(prog, name, fn, opt)
 			continue
 		}
+		opt.Deadline = time.Now().Add(time.Duration(unitSeconds) * time.Second)
 		ur := sym.RunUnit(prog, name, fn, opt)
 		ue := unitEvidence{Unit: name, Paths: ur.Paths, Done: ur.Done, Pruned: ur.Pruned, Panicked: ur.Panicked, Ends: ur.Ends, Asserts: ur.Asserts, Folded: ur.Folded,
 			Queries: ur.Queries, Sat: ur.QSat, Unsat: ur.QUnsat, Unknown: ur.QUnknown, SolverS: ur.SolverTime.Seconds(), WallS: ur.Wall.Seconds(), Steps: ur.Steps, Decisions: ur.Decisions,
@@ -285,7 +294,7 @@ func run() int {
 			ue.Incomplete = append(ue.Incomplete, e)
 		}
 		if ur.MaxPathsHit {
-			ue.Incomplete = append(ue.Incomplete, "path limit reached")
+			ue.Incomplete = append(ue.Incomplete, "path limit or per-unit time budget reached")
 		}
 		if ur.QUnknown > 0 {
 			ue.Incomplete = append(ue.Incomplete, fmt.Sprintf("%d solver queries returned unknown/error", ur.QUnknown))
